@@ -230,6 +230,40 @@ def run(F, R, ctx):
                    "only they reference" % (nm, lib.short_name(b["callee"])), fn.loc(b["line"]),
                    sample={"args": b["args"]})
 
+    # ---------------- g: the two primitive steps of marking and of the weak collection
+    R.rule("C04.g", "mark_heap_reference / mark_heap_vector of both marker contexts: on the not-yet-reachable path they set "
+                    "the mark bit AND queue the slot's contents (push_back), and count the slot; FreeList::weak_collection's "
+                    "predicate is `weak_count(handle) == 0` (a slot is free only when no handle exists)")
+    for ctxname in ("MarkAndSweepContext", "MarkAndSweepContextRefQueue"):
+        for nm in ("mark_heap_reference", "mark_heap_vector"):
+            fn = F.one(r"^steel::values::closed::\{impl %s(<'a>)?\}::%s$" % (ctxname, nm))
+            marks = fn.call_blocks(r"\{impl HeapAllocated<T>\}::mark_reachable$")
+            tests = fn.call_blocks(r"\{impl HeapAllocated<T>\}::is_reachable$")
+            pushes = fn.call_blocks(r"%s(<'a>)?\}::push_back$" % ctxname)
+            ok = bool(marks) and bool(tests) and bool(pushes)
+            if ok:
+                # after marking, the contents must be queued on every path to the return
+                ok = all(fn.every_path_passes_from(fn.succ(m_), fn.returns(), pushes)[0] or
+                         any(p in fn.reachable_from(fn.succ(m_)) and p in fn.reachable_from([x for x in fn.succ(p)] + [p]) for p in pushes)
+                         for m_ in marks)
+                # a loop of pushes (vector elements) is fine: require at least that a push is reachable after the mark
+                ok = ok and all(any(p in fn.reachable_from(fn.succ(m_)) for p in pushes) for m_ in marks)
+            R.inst("C04.g", "%s::%s marks then queues the contents" % (ctxname, nm), ok,
+                   "%s::%s no longer (tests the mark bit,) sets it and pushes the slot's contents onto the work-list: "
+                   "everything reachable only through a box / mutable vector is not traced" % (ctxname, nm), fn.loc(), sample=True)
+    wcs = F.find(r"^steel::values::closed::\{impl FreeList<T>\}::weak_collection$")
+    R.floor("C04.g", "weak_collection", len(wcs), 1)
+    for fn in wcs:
+        okp = False
+        for _, e in lib.family_events(F, fn, "binop"):
+            if e[1] == "Eq" and e[2] == "usize" and "const:0" in (e[5], e[6]):
+                okp = True
+        cnt = any(re.search(r"::weak_count$", b["callee"]) for _, b in lib.family_calls(F, fn))
+        strong = any(re.search(r"::strong_count$", b["callee"]) for _, b in lib.family_calls(F, fn))
+        R.inst("C04.g", "FreeList::weak_collection frees a slot only when weak_count == 0", okp and cnt and not strong,
+               "FreeList::weak_collection's predicate is no longer `weak_count(slot) == 0`: a slot that still has a handle "
+               "(HeapRef) somewhere can be reclaimed by the cheap collection", fn.loc(), sample=True)
+
     # ---------------- d
     unmarkers = []
     for n, fn in F.fns.items():
